@@ -89,24 +89,135 @@ def _canon(fn):
     return ("ok", r)
 
 
-def real_particles(parts, n, m, wq, via="eccentricity"):
+# memory layout / representation of the arrays the inputs can carry.  A layout is a '+'-joined list of tokens,
+# applied left to right; every token keeps the shape and (up to the dtype's own rounding) the LOGICAL content
+# a[i, j, k] and only changes how it is stored.
+LAYOUT_TOKENS = ["F", "T", "swap01", "swap02", "swap12", "neg0", "neg1", "neg2", "negall", "slice", "f32", "int", "ro"]
+CONTAINERS = ["list", "ndarray", "ndarray-strided", "ndarray-reversed", "ndarray-ro"]
+
+
+def _lay(a, layout):
+    """same logical array, other representation (works for any number of dimensions)"""
+    a = np.array(a, dtype=float)
+    for tok in (layout or "C").split("+"):
+        nd = a.ndim
+        if tok == "C":
+            a = np.ascontiguousarray(a)
+        elif tok == "F":
+            a = np.asfortranarray(a)
+        elif tok == "T":  # stored transposed, a transposing view put in place
+            a = np.ascontiguousarray(a.T).T
+        elif tok.startswith("swap"):
+            p, q = int(tok[4]), int(tok[5])
+            if p < nd and q < nd:
+                a = np.ascontiguousarray(np.swapaxes(a, p, q)).swapaxes(p, q)
+        elif tok.startswith("neg"):  # negative strides
+            ax = None if tok == "negall" else int(tok[3])
+            if ax is None or ax < nd:
+                a = np.flip(np.ascontiguousarray(np.flip(a, ax)), ax)
+        elif tok == "slice":  # non-contiguous slice of a bigger array full of other numbers
+            big = np.full(tuple(2 * d + 1 for d in a.shape), -777.25, dtype=a.dtype)
+            view = big[tuple(slice(1, 2 * d, 2) for d in a.shape)]
+            view[...] = a
+            a = view
+        elif tok == "f32":
+            a = a.astype(np.float32)
+        elif tok == "int":
+            a = a.astype(np.int64)
+        elif tok == "ro":
+            a = a.view()
+            a.setflags(write=False)
+        else:
+            raise ValueError("unknown layout token " + tok)
+    return a
+
+
+def _stored(a):
+    """how a live array is stored, for keys: '' for a plain C-contiguous writeable float64 array"""
+    d = []
+    if not a.flags["C_CONTIGUOUS"]:
+        d.append("F-contiguous" if a.flags["F_CONTIGUOUS"] else "non-contiguous")
+    if a.dtype != np.float64:
+        d.append(str(a.dtype))
+    if not a.flags.writeable:
+        d.append("read-only")
+    return ":stored=" + "+".join(d) if d else ""
+
+
+def strip_dtype(layout):
+    toks = [t for t in (layout or "C").split("+") if t not in ("f32", "int")]
+    return "+".join(toks) or "C"
+
+
+ORDER_TOKENS = ["F", "T", "swap01", "swap02", "swap12", "neg0", "neg1", "neg2", "negall", "slice"]
+
+
+def gen_layout(rng, plain=0.45):
+    """at most one storage-order token, then optionally a dtype token, then optionally read-only
+    (astype keeps the stride order, so the combination really has all the chosen features)"""
+    if rng.random() < plain:
+        return "C"
+    toks = []
+    if rng.random() < 0.8:
+        toks.append(rng.choice(ORDER_TOKENS))
+    if rng.random() < 0.25:
+        toks.append(rng.choice(["f32", "int"]))
+    if rng.random() < 0.2 or not toks:
+        toks.append("ro")
+    return "+".join(toks)
+
+
+def gen_axes_layout(rng):
+    return "C" if rng.random() < 0.7 else "+".join(rng.sample(["neg0", "slice", "ro"], rng.choice([1, 2])))
+
+
+def _container(pl, container):
+    """the particle objects `pl` in the requested container (list / 1-d object ndarray in several representations)"""
+    if not container or container == "list":
+        return pl
+    n = len(pl)
+    if container == "ndarray-strided":
+        big = np.empty(2 * n + 1, dtype=object)
+        arr = big[1:2 * n:2]
+    elif container == "ndarray-reversed":
+        arr = np.empty(n, dtype=object)[::-1]
+    else:
+        arr = np.empty(n, dtype=object)
+    for i, p in enumerate(pl):
+        arr[i] = p
+    if container == "ndarray-ro":
+        arr.setflags(write=False)
+    return arr
+
+
+def real_particles(parts, n, m, wq, via="eccentricity", container="list"):
     from sparkx.EventCharacteristics import EventCharacteristics
-    ec = EventCharacteristics(_particles(parts))
+    ec = EventCharacteristics(_container(_particles(parts), container))
     if via == "eccentricity":
         return _canon(lambda: ec.eccentricity(n, m, wq))
     return _canon(lambda: ec.eccentricity_from_particles(n, m, wq))
 
 
-def _lattice(ext, shape, grid):
+def _lattice(ext, shape, grid, layout="C", axes="C"):
     from sparkx.Lattice3D import Lattice3D
     lat = Lattice3D(ext[0], ext[1], ext[2], ext[3], ext[4], ext[5], shape[0], shape[1], shape[2])
-    lat.grid_ = np.array(grid, dtype=float).reshape(shape)
+    lat.grid_ = _lay(np.array(grid, dtype=float).reshape(shape), layout)
+    if axes and axes != "C":
+        lat.x_values_ = _lay(lat.x_values_, axes)
+        lat.y_values_ = _lay(lat.y_values_, axes)
+        lat.z_values_ = _lay(lat.z_values_, axes)
     return lat
 
 
-def real_lattice(ext, shape, grid, n, m):
+def logical_grid(lat):
+    """the densities as the lattice holds them, read element by element: grid_[i, j, k]"""
+    sh = lat.grid_.shape
+    return [[[float(lat.grid_[i, j, l]) for l in range(sh[2])] for j in range(sh[1])] for i in range(sh[0])]
+
+
+def real_lattice(ext, shape, grid, n, m, layout="C", axes="C"):
     from sparkx.EventCharacteristics import EventCharacteristics
-    ec = EventCharacteristics(_lattice(ext, shape, grid))
+    ec = EventCharacteristics(_lattice(ext, shape, grid, layout, axes))
     return _canon(lambda: ec.eccentricity(n, m))
 
 
@@ -286,14 +397,8 @@ P_ATTRS = ["x", "y", "E", "charge", "baryon_number", "strangeness"]
 def _build(spec):
     """spec -> the live data object handed to EventCharacteristics (held by reference there)"""
     if spec["kind"] == "lattice":
-        return _lattice(spec["extent"], spec["shape"], spec["grid"])
-    pl = _particles(spec["particles"])
-    if spec.get("container") == "ndarray":
-        arr = np.empty(len(pl), dtype=object)
-        for i, p in enumerate(pl):
-            arr[i] = p
-        return arr
-    return pl
+        return _lattice(spec["extent"], spec["shape"], spec["grid"], spec.get("layout", "C"), spec.get("axes", "C"))
+    return _container(_particles(spec["particles"]), spec.get("container"))
 
 
 def _is_lattice(data):
@@ -305,7 +410,7 @@ def _content(data):
     """CURRENT content of the live data as plain numbers: ('l', xs, ys, nz, grid) | ('p', seen)"""
     if _is_lattice(data):
         return ("l", [float(v) for v in data.x_values_], [float(v) for v in data.y_values_],
-                int(data.grid_.shape[2]), np.array(data.grid_, dtype=float).tolist())
+                int(data.grid_.shape[2]), logical_grid(data))
     return ("p", _seen(list(data)))
 
 
@@ -364,6 +469,8 @@ def _apply(data, op):
                 lat.grid_ = res.grid_
             elif name == "grid_iadd":
                 lat.grid_ += _pattern_grid(sh, op["co"])
+            elif name == "relayout":  # the same densities assigned again in another representation
+                lat.grid_ = _lay(np.array(logical_grid(lat)).reshape(sh), op["layout"])
             else:
                 return False
             return True
@@ -453,7 +560,7 @@ def run_session(session, record=None):
                     f"ops since the previous call on this object: {since or ['(none)']}", detail)
         if ref is not None and cond <= 1e4 and not _agree(real, ("ok", ref), tol):
             mk = "m-given" if m is not None else ("m-default-n1" if n == 1 else "m-default")
-            key = "formula:lattice" if lat else f"formula:particles:{wq}:{mk}"
+            key = "formula:lattice" + _stored(data.grid_) if lat else f"formula:particles:{wq}:{mk}"
             return (key, f"step {step}: eccentricity({n},{m},{wq!r}) = {real} but the formula on the current content gives {ref!r} "
                          f"(fresh object: {fresh})", detail)
         since = []
@@ -464,12 +571,12 @@ def gen_spec(rng, kind=None):
     kind = kind or rng.choice(["particles", "lattice"])
     if kind == "particles":
         return dict(kind="particles", particles=gen_parts(rng, 2, 7, positive=rng.random() < 0.7),
-                    container="ndarray" if rng.random() < 0.2 else "list")
+                    container=rng.choice(CONTAINERS) if rng.random() < 0.35 else "list")
     ext, shape, grid = gen_lattice(rng, nonneg=rng.random() < 0.8)
     if rng.random() < 0.6:
         shape = [max(2, v) for v in shape]
         grid = [[[rng.uniform(0.0, 5.0) for _ in range(shape[2])] for _ in range(shape[1])] for _ in range(shape[0])]
-    return dict(kind="lattice", extent=ext, shape=shape, grid=grid)
+    return dict(kind="lattice", extent=ext, shape=shape, grid=grid, layout=gen_layout(rng), axes=gen_axes_layout(rng))
 
 
 def gen_compute(rng):
@@ -480,11 +587,13 @@ def gen_compute(rng):
 def gen_mutation(rng, kind):
     if kind == "lattice":
         name = rng.choice(["reset", "set_value_by_index", "set_value_by_index", "set_value_nearest_neighbor", "set_value",
-                           "rescale", "add_particle_data", "add_same_spaced_grid", "assign_arith", "grid_iadd"])
+                           "rescale", "add_particle_data", "add_same_spaced_grid", "assign_arith", "grid_iadd", "relayout"])
         u = [rng.random(), rng.random(), rng.random()]
         co = [rng.randint(0, 8) / 4.0, rng.randint(0, 4) / 4.0, rng.randint(0, 4) / 4.0, rng.randint(0, 4) / 4.0]
         if name == "reset":
             return dict(op=name)
+        if name == "relayout":
+            return dict(op=name, layout=gen_layout(rng, plain=0.1))
         if name == "set_value_by_index":
             return dict(op=name, i=rng.randint(0, 4), j=rng.randint(0, 4), k=rng.randint(0, 2), v=rng.randint(1, 40) / 4.0)
         if name in ("set_value_nearest_neighbor", "set_value"):
@@ -549,6 +658,17 @@ def shrink_session(session, key):
                 changed = True
         specs = [cur["init"]] + [o["data"] for o in cur["ops"] if o["op"] == "set_event_data" and o.get("data")]
         for spec in specs:
+            if spec["kind"] == "lattice":
+                for field in ("axes", "layout"):
+                    old = spec.get(field, "C")
+                    for cand in ["C"] + [t for t in old.split("+") if t != "C"]:
+                        if cand == old:
+                            continue
+                        spec[field] = cand
+                        if fails(cur):
+                            changed = True
+                            break
+                        spec[field] = old
             if spec["kind"] != "particles":
                 continue
             i = 0
@@ -573,7 +693,12 @@ def correspond(ctx):
                 "EventCharacteristics object, histories of compute / in-place mutation of the held Lattice3D (reset, set_value*, "
                 "rescale, add_particle_data, add_same_spaced_grid, arithmetic result assigned, grid_ +=) or particle list "
                 "(setters, replace, append, pop, reverse; list and ndarray containers) / set_event_data switching the input, "
+                "grid_ re-assigned in another representation, "
                 "(n, m, weight_quantity) varying per call; every call compared on the content held at that moment.  "
+                "Representations: grid_ as C / Fortran-ordered array, transposing and swapaxes views, negative strides, "
+                "non-contiguous slice of a bigger array, float32, int64, read-only (and combinations); coordinate arrays as "
+                "reversed / strided / read-only views; particle containers list / object ndarray (plain, strided, reversed view, "
+                "read-only); model and formula are always fed the logical content read element by element (grid_[i,j,k]).  "
                 "Every case is evaluated by the hand model (ops p / l) AND by the functions generated from the current "
                 "source (ops gp / gl, the weight string handed to the generated if-chain as it is); both must agree with the code")
     ctx.assumptions.append("C18: np.arctan2/np.cos/np.sin/float ** are compared with C libm atan2/cos/sin/pow at 1e-9 "
@@ -600,19 +725,21 @@ def correspond(ctx):
                 wq = rng.choice(["charge", "baryon", "strangeness"])
             plist = _particles(parts)
             seen = _seen(plist)
+            container = rng.choice(CONTAINERS) if rng.random() < 0.3 else "list"
             lines.append(line_particles(n, m, wq, seen))
-            meta.append(("p", n, m, wq, parts, seen, neutral, None))
+            meta.append(("p", n, m, wq, (parts, container), seen, neutral, None))
         else:
             ext, shape, grid = gen_lattice(rng)
             if rng.random() < 0.05:
                 grid = [[[0.0 for _ in row] for row in plane] for plane in grid]
             n, m = gen_nm(rng, bad=0.06)
-            lat = _lattice(ext, shape, grid)
+            layout, axl = gen_layout(rng), gen_axes_layout(rng)
+            lat = _lattice(ext, shape, grid, layout, axl)
             xs = [float(v) for v in lat.x_values_]
             ys = [float(v) for v in lat.y_values_]
-            g = lat.grid_.tolist()
+            g = logical_grid(lat)  # what grid_[i, j, k] holds in this representation
             lines.append(line_lattice(n, m, xs, ys, shape[2], g))
-            meta.append(("l", n, m, None, (ext, shape, grid), (xs, ys, g), False, None))
+            meta.append(("l", n, m, None, (ext, shape, grid, layout, axl), (xs, ys, g), False, None))
     # sessions: every call of a long-lived object is compared with the model on the content held at that moment
     for si in range(ctx.n(60, 1500)):
         session = gen_session(rng)
@@ -622,11 +749,11 @@ def correspond(ctx):
             where = dict(session=session, step=step)
             if content[0] == "p":
                 lines.append(line_particles(n, m, wq, content[1]))
-                meta.append(("p", n, m, wq, content[1], content[1], False, (real, where)))
+                meta.append(("p", n, m, wq, (content[1], "list"), content[1], False, (real, where)))
             else:
                 _, xs, ys, nz, g = content
                 lines.append(line_lattice(n, m, xs, ys, nz, g))
-                meta.append(("l", n, m, None, (None, [len(xs), len(ys), nz], g), (xs, ys, g), False, (real, where)))
+                meta.append(("l", n, m, None, (None, [len(xs), len(ys), nz], g, None, None), (xs, ys, g), False, (real, where)))
     # every case goes to the hand model (`p` / `l`) and to the functions generated from the source (`gp` / `gl`)
     outs = common.run_driver("C18", lines + ["g" + l for l in lines])
     gouts = outs[len(lines):]
@@ -635,25 +762,31 @@ def correspond(ctx):
         model = parse_model(out)
         gen = parse_model(gout)
         if kind == "p":
-            real = pre[0] if pre else real_particles(inp, n, m, wq)
+            inp, container = inp
+            real = pre[0] if pre else real_particles(inp, n, m, wq, container=container)
             k = radial_power(max(n, 1), m if (m is None or m >= 1) else 1)
             pts = [(1.0 if wq == "number" else p[WIDX.get(wq, 0)], p[4], p[5]) for p in seen]
             _, cond = ref_ecc(pts, max(n, 1), k)
             off = sum(1 for p in seen if p[4] != 0.0 or p[5] != 0.0)
             nontriv = real[0] == "ok" and off >= 2
             canon = ("p", n, m, wq, tuple(tuple(p) for p in seen))
-            sample = dict(op="particles", n=n, m=m, weight_quantity=wq, particles=inp, code=str(real), model=out)
+            sample = dict(op="particles", n=n, m=m, weight_quantity=wq, particles=inp, container=container, code=str(real), model=out)
+            if container != "list":
+                ctx.count("representation/particles/" + container)
             tag = f"p/{wq if wq in WQS else 'unknown-wq'}/n={n if n >= 1 else '<1'}/m={'default' if m is None else ('given' if m >= 1 else '<1')}/{real[0]}{':' + real[1] if real[0] == 'err' else ''}"
         else:
-            ext, shape, grid = inp
-            real = pre[0] if pre else real_lattice(ext, shape, grid, n, m)
+            ext, shape, grid, layout, axl = inp
+            real = pre[0] if pre else real_lattice(ext, shape, grid, n, m, layout, axl)
             xs, ys, g = seen
             pts = [(g[i][j][l], xs[i], ys[j]) for i in range(shape[0]) for j in range(shape[1]) for l in range(shape[2])]
             _, cond = ref_ecc(pts, max(n, 1), radial_power(max(n, 1), m if (m is None or m >= 1) else 1))
             off = sum(1 for p in pts if (p[1] != 0.0 or p[2] != 0.0) and p[0] != 0.0)
             nontriv = real[0] == "ok" and off >= 2
             canon = ("l", n, m, tuple(xs), tuple(ys), repr(grid))
-            sample = dict(op="lattice", n=n, m=m, extent=ext, shape=shape, grid=grid, code=str(real), model=out)
+            sample = dict(op="lattice", n=n, m=m, extent=ext, shape=shape, grid=grid, layout=layout, axes=axl,
+                          code=str(real), model=out)
+            for tok in (layout or "C").split("+"):
+                ctx.count("representation/grid/" + tok)
             tag = f"l/shape={'x'.join(map(str, shape))}/{real[0]}{':' + real[1] if real[0] == 'err' else ''}"
         if pre:
             sample = dict(sample, op="session/" + sample["op"], step=pre[1]["step"], session=pre[1]["session"])
@@ -705,13 +838,15 @@ def check_particles(case):
         return None  # the quotient does not exist / is ill-conditioned: outside the statement
     tol = 1e-9 * max(1.0, cond)
     mk = "m-given" if m is not None else ("m-default-n1" if n == 1 else "m-default")
-    base = real_particles(parts, n, m, wq)
+    container = case.get("container", "list")
+    ck = "" if container == "list" else ":container=" + container
+    base = real_particles(parts, n, m, wq, container=container)
     if base[0] != "ok":
-        return (f"formula:particles:{wq}:{mk}", f"eccentricity({n},{m},{wq!r}) gives {base} where the formula gives {ref!r}",
+        return (f"formula:particles:{wq}:{mk}{ck}", f"eccentricity({n},{m},{wq!r}) gives {base} where the formula gives {ref!r}",
                 dict(relation="formula", expected=str(ref), observed=str(base)))
     e = base[1]
     if not cclose(e, ref, tol):
-        return (f"formula:particles:{wq}:{mk}",
+        return (f"formula:particles:{wq}:{mk}{ck}",
                 f"eccentricity({n},{m},{wq!r}) = {e!r} but -sum(w r^{k} e^(i{n}phi))/sum(w r^{k}) = {ref!r}",
                 dict(relation="formula", expected=str(ref), observed=str(e)))
     d = real_particles(parts, n, m, wq, via="from_particles")
@@ -756,16 +891,20 @@ def check_particles(case):
 def check_lattice(case):
     ext, shape, grid, n, m = case["extent"], case["shape"], case["grid"], case["n"], case["m"]
     k = radial_power(n, m)
-    lat = _lattice(ext, shape, grid)
+    layout, axl = case.get("layout", "C"), case.get("axes", "C")
+    lat = _lattice(ext, shape, grid, layout, axl)
     xs, ys = [float(v) for v in lat.x_values_], [float(v) for v in lat.y_values_]
+    grid = logical_grid(lat)  # the logical content grid_[i, j, k] of this representation (dtype rounding included)
+    dl = strip_dtype(layout)  # derived lattices: same memory order, float64 values
+    lk = "" if (layout or "C") == "C" and (axl or "C") == "C" else f":layout={layout},axes={axl}"
     pts = [(grid[i][j][l], xs[i], ys[j]) for i in range(shape[0]) for j in range(shape[1]) for l in range(shape[2])]
     ref, cond = ref_ecc(pts, n, k)
     if ref is None or cond > 1e4:
         return None
     tol = 1e-9 * max(1.0, cond)
-    base = real_lattice(ext, shape, grid, n, m)
+    base = real_lattice(ext, shape, grid, n, m, layout, axl)
     if base[0] != "ok" or not cclose(base[1], ref, tol):
-        return ("formula:lattice", f"lattice eccentricity({n},{m}) = {base} but the formula over the nodes weighted by density gives {ref!r}",
+        return ("formula:lattice" + lk, f"lattice eccentricity({n},{m}) [grid_ layout {layout}, axes {axl}] = {base} but the formula over the nodes weighted by density gives {ref!r}",
                 dict(relation="lattice-formula", expected=str(ref), observed=str(base)))
     e = base[1]
     # the same nodes as particles (energy = density)
@@ -779,20 +918,20 @@ def check_lattice(case):
     # reflected lattice: x axis [-x1, -x0], planes in reverse order
     # (np.linspace with a single point yields the lower limit only)
     mext = ([-ext[1], -ext[0]] if shape[0] > 1 else [-ext[0], -ext[0] + 1.0]) + ext[2:]
-    r = real_lattice(mext, shape, grid[::-1], n, m)
+    r = real_lattice(mext, shape, grid[::-1], n, m, dl, axl)
     exp = (-1) ** n * e.conjugate()
     if r[0] != "ok" or not cclose(r[1], exp, tol):
-        return ("reflection:lattice", f"lattice mirrored in x: got {r}, expected {exp!r}",
+        return ("reflection:lattice" + lk, f"lattice mirrored in x: got {r}, expected {exp!r}",
                 dict(relation="reflection", expected=str(exp), observed=str(r)))
     c = case["wscale"]
-    r = real_lattice(ext, shape, [[[c * v for v in row] for row in plane] for plane in grid], n, m)
+    r = real_lattice(ext, shape, [[[c * v for v in row] for row in plane] for plane in grid], n, m, dl, axl)
     if r[0] != "ok" or not cclose(r[1], e, tol):
-        return ("scale-weights:lattice", f"densities scaled by {c!r}: got {r}, expected {e!r}",
+        return ("scale-weights:lattice" + lk, f"densities scaled by {c!r}: got {r}, expected {e!r}",
                 dict(relation="scale-weights", expected=str(e), observed=str(r)))
     s = case["scale"]
-    r = real_lattice([s * v for v in ext], shape, grid, n, m)
+    r = real_lattice([s * v for v in ext], shape, grid, n, m, dl, axl)
     if r[0] != "ok" or not cclose(r[1], e, tol):
-        return ("scale-positions:lattice", f"lattice extent scaled by {s!r}: got {r}, expected {e!r}",
+        return ("scale-positions:lattice" + lk, f"lattice extent scaled by {s!r}: got {r}, expected {e!r}",
                 dict(relation="scale-positions", expected=str(e), observed=str(r)))
     return None
 
@@ -814,12 +953,14 @@ def gen_case(rng):
         perm = list(range(len(parts)))
         rng.shuffle(perm)
         return dict(kind="particles", particles=parts, n=n, m=m, wq=wq,
+                    container=rng.choice(CONTAINERS) if rng.random() < 0.3 else "list",
                     alpha=rng.choice([rng.uniform(-math.pi, math.pi), math.pi / 2, math.pi, -math.pi / 3, 2.0 * math.pi / 5]),
                     scale=rng.choice([0.5, 2.0, 4.0, rng.uniform(0.1, 10.0)]),
                     wscale=rng.choice([2.0, 3.0, 0.5, rng.uniform(0.2, 5.0), -2.0]), perm=perm)
     ext, shape, grid = gen_lattice(rng)
     n, m = gen_nm(rng)
     return dict(kind="lattice", extent=ext, shape=shape, grid=grid, n=n, m=m,
+                layout=gen_layout(rng), axes=gen_axes_layout(rng),
                 scale=rng.choice([0.5, 2.0, rng.uniform(0.1, 10.0)]), wscale=rng.choice([2.0, 0.5, rng.uniform(0.2, 5.0)]))
 
 
@@ -827,7 +968,20 @@ def shrink(case, key):
     if case["kind"] == "session":
         return shrink_session(case, key)
     if case["kind"] != "particles":
-        return case
+        # which part of the representation is needed?  (the key names the representation, so compare its stem)
+        stem = key.split(":layout=")[0]
+        cur = dict(case)
+        for field in ("axes", "layout"):
+            cands = ["C"] + [t for t in cur.get(field, "C").split("+") if t != "C"]
+            for cand in cands:
+                if cand == cur.get(field, "C"):
+                    continue
+                trial = dict(cur, **{field: cand})
+                r = check_case(trial)
+                if r and r[0].split(":layout=")[0] == stem:
+                    cur = trial
+                    break
+        return cur
     cur = dict(case)
     changed = True
     while changed and len(cur["particles"]) > 1:
@@ -841,6 +995,11 @@ def shrink(case, key):
                 cur = cand
                 changed = True
                 break
+    if cur.get("container", "list") != "list":
+        trial = dict(cur, container="list")
+        r = check_case(trial)
+        if r and r[0].split(":container=")[0] == key.split(":container=")[0]:
+            cur = trial
     return cur
 
 
